@@ -33,6 +33,9 @@ func eexec(intp *Interpreter) error {
 	s := intp.scanners[len(intp.scanners)-1]
 	err := s.BeginEexec(eexecN)
 	if err != nil {
+		// the section was not entered: remove systemdict again, otherwise
+		// every failed attempt leaves one more entry on the dictionary stack
+		intp.DictStack = intp.DictStack[:k]
 		return err
 	}
 	err = intp.executeScanner(s)
